@@ -129,6 +129,9 @@ def trace(P, fname, page_type, has_crc, verify, stored_crc, computed_crc, codec,
                             align={"map": map_align, "dv": 0, "ddl": 0, "drl": 0, "m1": 0, "m2": 0, "m3": 0, "m4": 0})
     view = heap.get(("rd", ro["decoded_values"]))
     return ret, ev, {"decoded_values": bid(view), "page_loaded": heap.get(("rd", ro["page_loaded"])),
+                     "decoded_def_levels": bid(heap.get(("rd", ro["decoded_def_levels"]))),
+                     "decoded_rep_levels": bid(heap.get(("rd", ro["decoded_rep_levels"]))),
+                     "decoded_capacity": heap.get(("rd", ro["decoded_capacity"])),
                      "data_start_offset": heap.get(("rd", ro["data_start_offset"])),
                      "decoded_ownership": heap.get(("rd", ro["decoded_ownership"])),
                      "page_values_read": heap.get(("rd", ro["page_values_read"])),
